@@ -45,6 +45,24 @@ def build_problem(model: dict):
             p.add_variables(rest)
         p.add_propagators([(list(vs), ALG_INDEX[alg], list(params)) for vs, alg, params in model["props"]])
         return p
+    va = model.get("_views_api")
+    if va is not None:
+        # constructor for the shared domains and the first n0 variables, the API for views for the others
+        n0 = va["n0"]
+        p = Problem([(lo, hi) for lo, hi in model["shr"][:n0]], list(model["idx"][:n0]), list(model["off"][:n0]))
+        j = n0
+        for g in va["groups"]:
+            ph = [model["shr"][i][0] for i in range(j, j + g)]
+            if g == 1:
+                at = p.add_variable(ph[0], model["idx"][j], model["off"][j])
+            else:
+                at = p.add_variables(ph, list(model["idx"][j : j + g]), list(model["off"][j : j + g]))
+            if at != j:
+                raise AssertionError(f"add_variable(s) returned index {at}, expected {j}")
+            j += g
+        for vs, alg, params in model["props"]:
+            p.add_propagator((list(vs), ALG_INDEX[alg], list(params)))
+        return p
     p = Problem(
         [(lo, hi) for lo, hi in model["shr"]],
         list(model["idx"]),
